@@ -71,7 +71,7 @@ func (l assignLoc) g() *Term {
 
 type Exec struct {
 	noAllocWF     bool
-	nReturnCovers int
+	retCovers     []*Obligation
 	callCovers    map[string]int
 	e         *Engine
 	top       *ssa.Function
